@@ -45,10 +45,14 @@ LatencyAtQuantile(resp, q, cfg) ==
      ELSE LET v == CHOOSE x \in lats : cum(x) >= need /\ \A y \in lats : cum(y) >= need => x <= y
           IN (v * 1000) \div cfg.tps
 
-(* x / y  cmp  num / den   with exact rational arithmetic; x / 0 is read as 0 (as the code does) *)
-CmpRat(x, y, op, num, den) ==
-  LET l == IF y = 0 THEN 0 ELSE x * den
-      r == IF y = 0 THEN num ELSE num * y
+(* x / y  cmp  num / den + eps * (something far smaller than any gap between two ratios of small  *)
+(* counts), with exact rational arithmetic; x / 0 is read as 0 (as the code does).  eps in -1..1:    *)
+(* the threshold literal sits just below / exactly at / just above the fraction, so that a          *)
+(* comparison which is not exact shows at attainable ratios.                                        *)
+EpsOf(ast) == IF "eps" \in DOMAIN ast THEN ast.eps ELSE 0
+CmpRat(x, y, op, num, den, eps) ==
+  LET l == IF y = 0 THEN 0 ELSE 2 * x * den
+      r == (IF y = 0 THEN 2 * num ELSE 2 * num * y) + eps
   IN CASE op = "<"  -> l < r
        [] op = "<=" -> l <= r
        [] op = ">"  -> l > r
@@ -64,17 +68,23 @@ Eval(ast, resp, now, cfg, mode) ==
   CASE ast.k = "and" -> Eval(ast.l, resp, now, cfg, mode) /\ Eval(ast.r, resp, now, cfg, mode)
     [] ast.k = "or"  -> Eval(ast.l, resp, now, cfg, mode) \/ Eval(ast.r, resp, now, cfg, mode)
     [] ast.k = "neterr" ->
-         CmpRat(CountNetErr(resp, now, cfg, mode), CountTotal(resp, now, cfg, mode), ast.op, ast.num, ast.den)
+         CmpRat(CountNetErr(resp, now, cfg, mode), CountTotal(resp, now, cfg, mode), ast.op, ast.num, ast.den, EpsOf(ast))
     [] ast.k = "coderatio" ->
          CmpRat(CountCodes(resp, ast.a1, ast.a2, now, cfg, mode), CountCodes(resp, ast.b1, ast.b2, now, cfg, mode),
-                ast.op, ast.num, ast.den)
+                ast.op, ast.num, ast.den, EpsOf(ast))
     [] ast.k = "latency" -> CmpInt(LatencyAtQuantile(resp, ast.q, cfg), ast.op, ast.ms)
 
 (* ---------------- activateFallback ---------------- *)
 (* ramp test of ratioController.allowRequest in exact arithmetic:                                   *)
 (*    (a+1)/(a+d+1) < 0.5 * el / dur   <=>   2*dur*(a+1) < el*(a+d+1)                               *)
-RampAllows(a, d, el, dur) == 2 * dur * (a + 1) < el * (a + d + 1)
-RampTie(a, d, el, dur) == 2 * dur * (a + 1) = el * (a + d + 1)
+(* both sides are divided by gcd(2*dur, el) first: recovery periods of months in ticks of a second  *)
+(* then stay inside TLC's 32-bit integers when the arrivals sit on a coarse grid                    *)
+RECURSIVE GCD(_, _)
+GCD(x, y) == IF y = 0 THEN x ELSE GCD(y, x % y)
+RampL(a1, el, dur) == ((2 * dur) \div GCD(2 * dur, el)) * a1          \* a1 = passed requests counted
+RampR(tot, el, dur) == (el \div GCD(2 * dur, el)) * tot                \* tot = all requests counted
+RampAllows(a, d, el, dur) == RampL(a + 1, el, dur) < RampR(a + d + 1, el, dur)
+RampTie(a, d, el, dur) == RampL(a + 1, el, dur) = RampR(a + d + 1, el, dur)
 
 (* returns [pass, b, trans] ; trans = sequence of states entered.  tieAllow resolves the float tie. *)
 Admit(b, now, cfg, tieAllow) ==
